@@ -144,6 +144,10 @@ fn check_tables() {
         assert!(s.insert(idx_key9(n).to_vec()), "index key collision");
         assert_eq!(IndexManager::bucket_for_key(&idx_key(n)), IDX_BUCKETS[(n % 2) as usize], "index bucket");
     }
+    for n in [0u32, 1, 629, 1259, 5000] {
+        assert_eq!(IndexManager::bucket_for_key(&fill_key(n)), IDX_BUCKETS[0], "fill key bucket");
+        assert!(!s.contains(&fill_key(n).as_bytes()[..9].to_vec()), "fill key collides with an index key");
+    }
     let mut s = std::collections::HashSet::new();
     for nb in 1..=3 {
         for n in 0..NKEYS {
